@@ -1874,6 +1874,15 @@ def _into_smolstr(it, c, a):
     return Agg('struct', 'SmolStr', None, [v])
 
 
+@model('[]::contains', 'Vec::contains', 'slice::contains')
+def _slice_contains(it, c, a):
+    v = deref(a[0])
+    if not isinstance(v, (VecV, SliceV)):
+        return NotImplemented
+    x = deref(a[1])
+    return BoolV(any(_key_eq(it, y, x) for y in list(v.items)))
+
+
 @model('Vec::sort_by_key', 'slice::sort_by_key', '[]::sort_by_key')
 def _sort_by_key(it, c, a):
     v = deref(a[0]); xs = v.items if isinstance(v, VecV) or (isinstance(v, SliceV) and v.off == 0) else None
